@@ -194,7 +194,7 @@ Endian Deserializer::setEndian(Endian e)
 
 bool Deserializer::checkSize(size_t need_size) const
 {
-    return (pos_ + need_size) <= size_;
+    return need_size <= (size_ - pos_);     //! pos_ <= size_ 恒成立；不用加法，need_size 很大时加法会回绕
 }
 
 bool Deserializer::set_pos(size_t pos) {
